@@ -5,7 +5,7 @@ draws) or off, subgrids, inactive and already-dead particles in the arrays; comp
 with Ladim.Model.Tracker (`moveH`), and the property's invariant evaluated on the implementation."""
 from __future__ import annotations
 
-from harness import trk
+from harness import lab, trk
 from harness.common import Ctx, driver, pmap, use_repo
 
 
@@ -65,11 +65,17 @@ def run(ctx: Ctx):
         seen, gone = set(), set()
         pos = 0
         for f in real["files"]:
-            if "unreadable" in f or sc["layout"] != "sparse":
+            if "unreadable" in f:
                 continue
             p = 0
-            for n, c in enumerate(f["count"]):
-                pids = set(f["pid"][p:p + c]); p += c
+            for n in range(len(f["time"])):
+                if sc["layout"] == "sparse":
+                    c = f["count"][n]
+                    pids = set(f["pid"][p:p + c]); p += c
+                else:
+                    # dense layout: the particles of a record are those with a value at [time, pid]
+                    pids = {q for q, x in enumerate(f["X"][n]) if x is not None}
+                    c = len(pids)
                 back = pids & gone
                 if back:
                     bad.append(f"{f['name']} record {n}: pids {sorted(back)} had left the records and are back")
@@ -81,7 +87,7 @@ def run(ctx: Ctx):
     ne = 40 if ctx.thorough else 10
     ecases = []
     for k in range(ne):
-        sc = scen.gen(ctx.seed * 100000 + 9500 + k, layout="sparse", kills=True, speed=[1.0, 2.0][k % 2], continuous=False, nsteps=10, period=1,
+        sc = scen.gen(ctx.seed * 100000 + 9500 + k, layout="dense" if k % 4 == 3 else "sparse", kills=True, speed=[1.0, 2.0][k % 2], continuous=False, nsteps=10, period=1,
                       scheme=["EF", "RK2", "RK4"][k % 3], rev=False, numrec=0)
         r0 = sc["rows"][0]
         # three release times; the particles of the second one are killed before the third
@@ -116,3 +122,31 @@ def run(ctx: Ctx):
             if bad:
                 ctx.violation("failing-input", "warm-deaths", case, dict(broken=bad[:3], theorem="Ladim.C09.dead_stay_dead / Ladim.SimWarm.restart_sim"),
                               tags=dict(first="ghost"))
+
+    # ---- flags given in the release file: a column `active` of zeros and ones (F24).  The particles with 0 are kept where they
+    # are, each of the others moves with the flow — whatever the order of the rows
+    for k, flags in enumerate([[1, 0, 1], [0, 1, 1], [1, 1, 0, 0, 1], [0, 0, 1]]):
+        with lab.scratch() as d:
+            lab.make_grid_forcing(d / "forcing.nc", [0, 3600], imax=14, jmax=10, N=3, u=lambda t, kk, j, i: 0.25 + 0 * kk, v=lambda t, kk, j, i: 0.125 + 0 * kk)
+            rows = [dict(release_time=0, mult=1, X=3.0 + 0.5 * n, Y=2.0 + 0.75 * n, Z=1.0, active=f) for n, f in enumerate(flags)]
+            lab.write_release(d / "release.rls", rows)
+            conf = lab.base_conf(d, 0, 1800, 300, 300, str(d / "forcing.nc"), advection=["EF", "RK4"][k % 2])
+            status = lab.run(conf, d)
+            case = dict(release_file_columns=["release_time", "mult", "X", "Y", "Z", "active"], active=flags, scheme=["EF", "RK4"][k % 2])
+            ctx.case("release-file-flags", [k, str(flags)], sample=case, nontrivial=True)
+            if status != "ok":
+                ctx.violation("failing-input", "release-file-flags", case, dict(status=status), tags=dict(first="status")); continue
+            recs = lab.records(lab.read_out(d / "out.nc"))
+            first, last = recs[0], recs[-1]
+            bad = []
+            for n, f in enumerate(flags):
+                if n not in first["pid"] or n not in last["pid"]:
+                    bad.append(f"particle {n} is missing from a record"); continue
+                a, b = first["pid"].index(n), last["pid"].index(n)
+                moved = (first["X"][a], first["Y"][a]) != (last["X"][b], last["Y"][b])
+                if f == 0 and moved:
+                    bad.append(f"particle {n} is not active and was moved from {(first['X'][a], first['Y'][a])} to {(last['X'][b], last['Y'][b])}")
+                if f == 1 and not moved:
+                    bad.append(f"particle {n} is active and was held at {(first['X'][a], first['Y'][a])} in a flow of 0.25 m/s")
+            if bad:
+                ctx.violation("failing-input", "release-file-flags", case, dict(broken=bad, theorem="Ladim.C09.inactive_fixed"), tags=dict(first="flags"))
